@@ -79,9 +79,13 @@ def ExpArgOK (x : ℝ) : Prop := |x| ≤ 453
 def inflateSites (τ : ℝ) (teams : List (List (Rating ℝ))) : Prop :=
   ∀ t ∈ teams, ∀ p ∈ t, 0 ≤ p.sigma * p.sigma + τ * τ
 
-/-- `gammaVal g c k mu sig2 rank`: `sqrt(sig2)/c`, `1/k`, `1/(rank+1)`, `sig2/(c*c)` -/
+/-- `gammaVal g c k mu sig2 team rank`: `sqrt(sig2)/c`, `1/k`, `1/(rank+1)`, `sig2/(c*c)`.
+An arbitrary callback `.fn f` is code of the caller, not of the library: it contributes no site of the
+library (whatever it divides by or takes the root of is the caller's to guard; the library evaluates
+it on `c > 0`, `k ≥ 1`, `sig2 ≥ 0` — the hypotheses of `C08_gamma_guards`). -/
 def gammaSites (g : GammaFn ℝ) (c : ℝ) (k : ℕ) (sig2 : ℝ) (rank : ℕ) : Prop :=
   match g with
+  | .fn _ => True
   | .dflt => 0 ≤ sig2 ∧ c ≠ 0
   | .const _ => True
   | .invK => (k : ℝ) ≠ 0
@@ -180,9 +184,11 @@ Each lemma restates one model function (unfolding the `Scalar ℝ` instance only
 denominators, root arguments and `exp` arguments listed above can be read off one expression.
 (`plC`, `plSumQ`, `plA`, `inflate`, `smax` occur in the site lists as the model's own terms.) -/
 
-theorem C08_gammaVal_shape (g : GammaFn ℝ) (c : ℝ) (k : ℕ) (mu sig2 : ℝ) (rank : ℕ) :
-    gammaVal g c k mu sig2 rank =
+theorem C08_gammaVal_shape (g : GammaFn ℝ) (c : ℝ) (k : ℕ) (mu sig2 : ℝ) (team : List (Rating ℝ))
+    (rank : ℕ) :
+    gammaVal g c k mu sig2 team rank =
       match g with
+      | .fn f => f c k mu sig2 team rank
       | .dflt => Real.sqrt sig2 / c
       | .const x => x
       | .invK => 1 / (k : ℝ)
@@ -196,7 +202,7 @@ theorem C08_btPair_shape (β : ℝ) (g : GammaFn ℝ) (n : ℕ) (ti tq : TeamAgg
       (ti.sig2 / ciq β ti tq *
           ((if ti.rank < tq.rank then (1 : ℝ) else if tq.rank = ti.rank then 1 / 2 else 0)
             - 1 / (1 + Real.exp ((tq.mu - ti.mu) / ciq β ti tq))),
-       gammaVal g (ciq β ti tq) n ti.mu ti.sig2 ti.rank * (ti.sig2 / ciq β ti tq) / ciq β ti tq
+       gammaVal g (ciq β ti tq) n ti.mu ti.sig2 ti.players ti.rank * (ti.sig2 / ciq β ti tq) / ciq β ti tq
           * (1 / (1 + Real.exp ((tq.mu - ti.mu) / ciq β ti tq)))
           * (1 - 1 / (1 + Real.exp ((tq.mu - ti.mu) / ciq β ti tq)))) := by
   simp only [btPair, ciq, sc_sqrt, sc_exp, sc_ofNat, Nat.cast_ofNat, Nat.cast_one, Nat.cast_zero]
@@ -206,19 +212,19 @@ theorem C08_tmPair_shape (L : Leaves ℝ) (cmul β κ : ℝ) (g : GammaFn ℝ) (
       (if ti.rank < tq.rank then
         (ti.sig2 / (cmul * ciq β ti tq)
             * L.v ((ti.mu - tq.mu) / (cmul * ciq β ti tq)) (κ / (cmul * ciq β ti tq)),
-         gammaVal g (cmul * ciq β ti tq) n ti.mu ti.sig2 ti.rank * (ti.sig2 / (cmul * ciq β ti tq))
+         gammaVal g (cmul * ciq β ti tq) n ti.mu ti.sig2 ti.players ti.rank * (ti.sig2 / (cmul * ciq β ti tq))
             / (cmul * ciq β ti tq)
             * L.w ((ti.mu - tq.mu) / (cmul * ciq β ti tq)) (κ / (cmul * ciq β ti tq)))
       else if tq.rank < ti.rank then
         (-(ti.sig2 / (cmul * ciq β ti tq))
             * L.v (-((ti.mu - tq.mu) / (cmul * ciq β ti tq))) (κ / (cmul * ciq β ti tq)),
-         gammaVal g (cmul * ciq β ti tq) n ti.mu ti.sig2 ti.rank * (ti.sig2 / (cmul * ciq β ti tq))
+         gammaVal g (cmul * ciq β ti tq) n ti.mu ti.sig2 ti.players ti.rank * (ti.sig2 / (cmul * ciq β ti tq))
             / (cmul * ciq β ti tq)
             * L.w (-((ti.mu - tq.mu) / (cmul * ciq β ti tq))) (κ / (cmul * ciq β ti tq)))
       else
         (ti.sig2 / (cmul * ciq β ti tq)
             * L.vt ((ti.mu - tq.mu) / (cmul * ciq β ti tq)) (κ / (cmul * ciq β ti tq)),
-         gammaVal g (cmul * ciq β ti tq) n ti.mu ti.sig2 ti.rank * (ti.sig2 / (cmul * ciq β ti tq))
+         gammaVal g (cmul * ciq β ti tq) n ti.mu ti.sig2 ti.players ti.rank * (ti.sig2 / (cmul * ciq β ti tq))
             / (cmul * ciq β ti tq)
             * L.wt ((ti.mu - tq.mu) / (cmul * ciq β ti tq)) (κ / (cmul * ciq β ti tq)))) := by
   simp only [tmPair, ciq, sc_sqrt, sc_ofNat, Nat.cast_ofNat]
@@ -263,6 +269,7 @@ callback divides by zero or takes the root of a negative number -/
 theorem C08_gamma_guards (g : GammaFn ℝ) (c : ℝ) (k : ℕ) (sig2 : ℝ) (rank : ℕ)
     (hc : 0 < c) (hk : 1 ≤ k) (hs : 0 ≤ sig2) : gammaSites g c k sig2 rank := by
   cases g with
+  | fn f => trivial
   | dflt => exact ⟨hs, hc.ne'⟩
   | const x => trivial
   | invK =>
